@@ -6,7 +6,7 @@
    regenerated on every run (Generated/GenSharedState.v); Props/C17.v proves the two lists equal, so a new
    carrier, a new write site or a new escape is a broken proof obligation.  Definitions only. *)
 From Coq Require Import ZArith List String Bool.
-Require Import Rig.Model.Base.
+Require Import Rig.Model.Base Rig.Model.Geometry.
 Import ListNotations.
 Open Scope Z_scope.
 Open Scope string_scope.
@@ -81,9 +81,9 @@ Fixpoint carriers_eqb (l1 l2 : list carrier) : bool :=
 Definition class_consistent (c : carrier * carrier_class) : bool :=
   let '((_, _, _, w, e), k) := c in
   match k with
-  | Memo => true
+  | Memo => Z.eqb e 0                              (* written, never handed out unprotected *)
   | InitOnlyTable => Z.eqb e 0
-  | ForwardedDefault => Z.eqb w 0
+  | ForwardedDefault => Z.eqb w 0 && Z.eqb e 1     (* never written here; handed on exactly once *)
   | ReadOnlyTable | ReadOnlyDefault => Z.eqb w 0 && Z.eqb e 0
   end.
 
@@ -105,3 +105,24 @@ Definition memo_after {A} (f : Z -> A) (history : list Z) : memo A :=
 Definition call_with_default {S} (default : S) (arg : option S) (write : S -> S) : S * S :=
   (* returns (the state the body works on, the default object afterwards) *)
   (write (match arg with Some a => a | None => default end), default).
+
+(* ---- a default object as a heap cell, under the two disciplines a function body can follow ----
+   [Copies]: the body rebinds the parameter to a copy before its first write (what an inventory row with 0 write
+   sites and 0 escapes means);  [Aliases]: the body writes through the parameter (>= 1 write site; boot() as found,
+   before fix 0f4c024).  A call returns (the value the body computes with, the default object afterwards). *)
+Inductive discipline := Copies | Aliases.
+
+Definition default_call {S} (d : discipline) (write : S -> S) (cell : S) (arg : option S) : S * S :=
+  match arg, d with
+  | Some a, _ => (write a, cell)
+  | None, Copies => (write cell, cell)
+  | None, Aliases => (write cell, write cell)
+  end.
+
+(* the default object after a history of earlier calls (each with its own write and explicit-or-default argument) *)
+Definition default_after {S} (d : discipline) (history : list ((S -> S) * option S)) (cell0 : S) : S :=
+  fold_left (fun cell c => snd (default_call d (fst c) cell (snd c))) history cell0.
+
+(* the memo of rig.place_and_route.route.ner as the router model uses it: radius -> concentric_hexagons radius (0,0) *)
+Definition ner_memo_call (m : memo (list chip)) (radius : Z) : list chip * memo (list chip) :=
+  memo_call (fun r => Rig.Model.Geometry.concentric_hexagons r (0, 0)) m radius.
